@@ -235,7 +235,7 @@ def discover_call(calls, uris, delims, cutoff, meta, pre, iterable="list", tag=N
 
 
 def rand_uri(rng):
-    roots = ["http://purl.obolibrary.org/obo/", "https://e.org/", "http://w3.org/2000/01/rdf-schema#", "https://github.com/o/r/issues/",
+    roots = ["urn:lsid:ex.org::", "http://e.org/x--", "http://purl.obolibrary.org/obo/", "https://e.org/", "http://w3.org/2000/01/rdf-schema#", "https://github.com/o/r/issues/",
              "https://github.com/o/r/pull/", "urn:x:", "http://ex.com/a_", "e", ""]
     tails = ["GO_0032571", "CHEBI_1", "label", "12", "a", "x-y", "a.b", "", "é1", "٣", "a_b_c", "1#2", "seeAlso", "7/", "A1"]
     u = rng.choice(roots) + rng.choice(tails)
@@ -257,6 +257,11 @@ def check_c19(tier, seed):
     c2 = dict(consts, Chars="{1, 3, 5, 8}", Tier='"quick"', MaxURIs=2, MaxLen=2 if quick else 3)
     m2, states, _ = run_model("mc/MC_Discover.tla", "DSpec", c2, ["Inv_C19"], 900, want=("uris", "args", "res"))
     models.append(m2)
+    # single URIs of 3 characters: long enough for a two-character delimiter followed by an alphanumeric tail
+    c3 = dict(consts, Chars="{1, 3, 5, 8}", Tier='"quick"', MaxURIs=1, MaxLen=3)
+    m3, states3, _ = run_model("mc/MC_Discover.tla", "DSpec", c3, ["Inv_C19"], 900, want=("uris", "args", "res"))
+    models.append(m3)
+    states = states + states3
     calls = Calls({"C19"})
     done = [s for s in states if s.get("args")]
     if cex:
@@ -281,7 +286,7 @@ def check_c19(tier, seed):
         uris = [rand_uri(rng) for _ in range(rng.randrange(1, 9))]
         if rng.random() < 0.5:
             uris += [rng.choice(uris) for _ in range(rng.randrange(1, 4))]
-        delims = rng.choice([None, None, ["/"], ["_", "/"], ["#", "/", "_", "-"], ["://"], ["/", "#"]])
+        delims = rng.choice([None, None, ["/"], ["_", "/"], ["#", "/", "_", "-"], ["://"], ["/", "#"], ["::", "/"], ["--", "::", "_"]])
         cutoff = rng.choice([None, None, 0, 1, 2, 3])
         meta = rng.choice([None, "ns", "n1", "p.", "é"])
         pre = rng.choice([None, None, [{"p": "obo", "u": "http://purl.obolibrary.org/obo/", "ps": [], "us": ["https://e.org/"], "pat": None}]])
@@ -379,9 +384,19 @@ def resolve_call(calls, ci, p, ident):
     c = calls.conv_objs[ci - 1]
     path = "/" + p + c.delimiter + ident
     fl, fa = _clients(calls, ci)
-    r1 = fl.get(path)
-    r2 = fa.get(path, follow_redirects=False)
     I = calls.I
+
+    class _Err:      # a client-side failure (e.g. an unusable Location) is an observation, not a harness crash
+        def __init__(self, e):
+            self.status_code, self.headers = -1, {"Location": "!" + type(e).__name__, "location": "!" + type(e).__name__}
+    try:
+        r1 = fl.get(path)
+    except Exception as e:  # noqa: BLE001
+        r1 = _Err(e)
+    try:
+        r2 = fa.get(path, follow_redirects=False)
+    except Exception as e:  # noqa: BLE001
+        r2 = _Err(e)
     a1 = [r1.status_code, [I(r1.headers["Location"])] if r1.headers.get("Location") is not None else []]
     a2 = [r2.status_code, [I(r2.headers["location"])] if r2.headers.get("location") is not None else []]
     calls.add({"f": "resolve", "conv": ci, "p": I(p), "id": I(ident), "flask": a1, "fastapi": a2},
@@ -513,7 +528,7 @@ def check_c18(tier, seed):
     base_recs = [{"p": "CHEBI", "u": "http://purl.obolibrary.org/obo/CHEBI_", "ps": ["chebi"],
                   "us": ["https://www.ebi.ac.uk/chebi/searchId.do?chebiId=", "http://identifiers.org/chebi/", "http://sp ace.org/chebi/"], "pat": None},
                  {"p": "GO", "u": "http://purl.obolibrary.org/obo/GO_", "ps": [], "us": [], "pat": None},
-                 {"p": "OBO", "u": "http://purl.obolibrary.org/obo/", "ps": [], "us": ["http://obo.alt/\"q\"/"], "pat": None}]
+                 {"p": "OBO", "u": "http://purl.obolibrary.org/obo/", "ps": [], "us": ["http://obo.alt/\"q\"/", "http://obo.example/"], "pat": None}]
     ci0 = calls.conv(base_recs, ":")
     app0 = get_flask_mapping_app(calls.conv_objs[ci0 - 1]).test_client()
     ping = "SELECT ?o WHERE { VALUES ?s { <http://purl.obolibrary.org/obo/GO_1> } ?s <http://www.w3.org/2002/07/owl#sameAs> ?o }"
@@ -588,7 +603,20 @@ def check_c18(tier, seed):
                 calls.add({"f": "map", "conv": ci, "u": calls.I(u), "configured": pred == pred_ok, "got": [calls.I(x) for x in got]},
                           {"f": "map", "u": u, "pred": pred, "direction": direction, "placement": placement, "how": how, "got": got,
                            "records": [[r.prefix, r.uri_prefix, r.uri_prefix_synonyms] for r in c.records]})
-    us = ["http://purl.obolibrary.org/obo/CHEBI_1", "https://www.ebi.ac.uk/chebi/searchId.do?chebiId=1", "http://identifiers.org/chebi/24867",
+    # the model's URIs against the model's converter (a record nested under another record's canonical URI prefix)
+    mstates = [s_["st"] for s_ in states if s_.get("st", {}).get("kind") == "map" and s_["st"]["u"]]
+    if cex:
+        mstates += [s_["st"] for s_ in cex if s_.get("st", {}).get("kind") == "map" and s_["st"]["u"]]
+    if mstates:
+        mm = {1: "x", 2: "y", 3: " ", 47: "/", 58: ":"}
+        mrecs = [{"p": _dconc(r["p"], mm), "u": "http://h/" + _dconc(r["u"], mm), "ps": sorted(_dconc(x, mm) for x in r["ps"]),
+                  "us": sorted("http://h/" + _dconc(x, mm) for x in r["us"]), "pat": None} for r in mstates[0]["c"]["recs"]]
+        mci = calls.conv(mrecs, ":", how="ctor")
+        rng.shuffle(mstates)
+        for st in mstates[: (60 if quick else 1500)]:
+            if 3 not in st["u"]:
+                map_calls(mci, "http://h/" + _dconc(st["u"], mm), False)
+    us = ["http://purl.obolibrary.org/obo/CHEBI_1", "http://obo.example/CHEBI_1", "http://obo.example/GO_7", "http://obo.example/x", "https://www.ebi.ac.uk/chebi/searchId.do?chebiId=1", "http://identifiers.org/chebi/24867",
           "http://purl.obolibrary.org/obo/GO_0032571", "http://purl.obolibrary.org/obo/go.owl", "http://example.org/nope/1",
           "http://purl.obolibrary.org/obo/CHEBI_", "http://purl.obolibrary.org/obo/CHEBI", "http://purl.obolibrary.org/obo/x_y"]
     for u in us:
